@@ -13,7 +13,7 @@ TRUSTED = [
 ASSUME = [
     'request ids are unique while in flight (the run uses a never-reusing id allocator; id reuse is C02\'s subject)',
     'AsyncServer (same logic on an asyncio.Condition) and process servlets are not scheduled',
-    'slot-returned / idle-backlog-zero and reject-leaves-no-trace are checked by the oracle on every explored run; their theorems are _todo',
+    'reject-leaves-no-trace and the bound on the waiting time are checked by the oracle on every explored run (theorem _todo)',
 ]
 
 
